@@ -46,7 +46,7 @@ ASSUMPTIONS = ['"whitespace" padding is drawn from space, tab, newline, CR, VT, 
                'MUST-REJECT when the hex part is not 32 hex digits',
                'integers with more than 4300 digits (CPython int/str conversion limit) are DONT-CARE',
                'distinctness of generate_uuid output is checked within one worker process']
-INTERPRETER_FLAGS = [[], ['-O']]      # -bb not used here: the inputs mix str and bytes keys/subjects (DONT-CARE zone), where the pinned tree itself compares or str()s bytes
+INTERPRETER_FLAGS = [[], ['-O'], ['-X', 'dev'], []]      # -bb not used here: the inputs mix str and bytes keys/subjects (DONT-CARE zone), where the pinned tree itself compares or str()s bytes
 CONCURRENT = lambda case: case.get('digit_limit') is None          # (that mode changes a process-wide setting)
 SHARDS = {'quick': 4, 'thorough': 16}
 MIN_DISTINCT = {'quick': 5000, 'thorough': 50000}
@@ -950,6 +950,13 @@ def gen_cases(ctx):
                          rseed='%s/gen/%d/%d' % (ctx.seed, ctx.shard, i)))
     return plan
 
+
+
+def REJECTED_FUNCS(ctx):
+    from oslo_utils import strutils as su
+    from oslo_utils import uuidutils as uu
+    return [su.bool_from_string, su.is_valid_boolstr, su.is_int_like, su.validate_integer, su.check_string_length,
+            uu.is_uuid_like]
 
 
 def HAMMER(ctx):
